@@ -111,7 +111,7 @@ func nonCanonical(t *rapid.T, lay *ref.Layout, val interface{}, v2 bool) ([]byte
 
 func TestC08Hops(t *testing.T) {
 	rec := evid.New(t, "C08", "frames a reader accepts (raw with arbitrary checksum/signature; dialect messages in canonical and every non-canonical encoding family) are passed through 1..4 hops of frame.Reader -> frame.Writer.Write with a dialect present or absent per hop; oracles: header fields preserved, bytes identical on dialect-less hops, reference-valid checksum for the payload actually sent on dialect hops, same decoded message at the next hop; non-trivial = dialect hop whose received payload differs from the canonical re-encoding; distinct by hash of (input bytes, hop configuration)")
-	rec.Require("fam-untruncated", "fam-partly-stripped", "fam-zero-tail-beyond-ext", "fam-nonzero-tail-beyond-ext", "fam-post-nul", "fam-empty-for-zero", "fam-raw-signed", "hop-without-dialect", "hop-with-dialect", "v1")
+	rec.Require("fam-untruncated", "fam-partly-stripped", "fam-zero-tail-beyond-ext", "fam-nonzero-tail-beyond-ext", "fam-post-nul", "fam-empty-for-zero", "fam-raw-signed", "hop-without-dialect", "hop-with-dialect", "v1", "hop-that-signs-what-it-originates")
 	dpool := pool(t)
 	evid.Check(t, rec, evid.N(60000, 250000), func(t *rapid.T) {
 		readBufSize = 512
@@ -169,7 +169,14 @@ func TestC08Hops(t *testing.T) {
 			if hd != nil {
 				drw = hd.rw
 			}
-			w, err := writeOne(fr, drw)
+			var own *[32]byte
+			if rapid.IntRange(0, 2).Draw(t, "hop_signs_its_own") == 0 {
+				k := [32]byte{}
+				copy(k[:], rapid.SliceOfN(rapid.Byte(), 32, 32).Draw(t, "hop_key"))
+				own = &k
+				cls = append(cls, "hop-that-signs-what-it-originates")
+			}
+			w, err := writeOneKeyed(fr, drw, own)
 			if err != nil {
 				fail("hop %d: writing the frame just read failed: %v", h, err)
 			}
@@ -190,7 +197,7 @@ func TestC08Hops(t *testing.T) {
 			}
 			if !withDialect || lay == nil {
 				if !bytes.Equal(out, in) {
-					fail("hop %d (no decoding involved) altered the bytes:\n in  %x\n out %x", h, in, out)
+					fail("hop %d (no decoding involved; the hop's writer has a key of its own for what it originates: %v) altered the bytes:\n in  %x\n out %x", h, own != nil, in, out)
 				}
 			} else {
 				if want := pout.ChecksumFor(lay.CRCExtra); pout.Checksum != want {
